@@ -111,6 +111,22 @@ def _extract_nested_case(
         _extract_nested_case(cast(Any, nested), stmts_list)
 
 
+def _copy_declarator_chain(node: Any) -> Any:
+    """Copies the PtrDecl/ArrayDecl/FuncDecl ... TypeDecl chain linked through
+    'type'. Other children (array bounds, parameter lists, the base type) are
+    shared with the original, like struct specifiers are.
+    """
+    new = copy.copy(node)
+    if getattr(new, "quals", None) is not None:
+        new.quals = list(new.quals)
+    if isinstance(node, c_ast.TypeDecl):
+        if isinstance(node.type, c_ast.IdentifierType):
+            new.type = c_ast.IdentifierType(node.type.names[:], node.type.coord)
+    elif getattr(node, "type", None) is not None:
+        new.type = _copy_declarator_chain(node.type)
+    return new
+
+
 def fix_atomic_specifiers(
     decl: c_ast.Decl | c_ast.Typedef,
 ) -> c_ast.Decl | c_ast.Typedef:
@@ -171,8 +187,11 @@ def _fix_atomic_specifiers_once(
     assert grandparent is not None
     # The Typename comes from the declaration specifiers, which are shared by
     # all the declarators of a declaration ('_Atomic(int) x, y;'): every
-    # declarator gets its own copy of the type.
-    new_type = copy.deepcopy(node.type)
+    # declarator gets its own copy of the chain of declarator nodes (the part
+    # that carries the declared name and the qualifiers). Only the chain is
+    # copied - a deep copy would cost time proportional to everything nested
+    # inside the specifier, at every nesting level.
+    new_type = _copy_declarator_chain(node.type)
     if new_type.coord is None:
         # Preserve the declarator coord for _Atomic(T) so TypeDecl doesn't lose
         # its location when we replace the wrapper Typename.
